@@ -1,8 +1,8 @@
 package rtr
 
 import (
-	"os"
 	"fmt"
+	"os"
 	"testing"
 
 	"pgregory.net/rapid"
